@@ -3,15 +3,27 @@ F = "vectorizers/linear_optimal_transport.py::"
 CONTRACTS = {}
 _GRAPH = "struct{n:int,m:int,n_arcs:int,use_arc_mixing:bool}"
 
-# pynndescent.optimal_transport.arc_id (15 lines, read from site-packages): for use_arc_mixing == False it returns
-# graph.n_arcs - arc - 1.  transport_plan allocates its graph with use_arc_mixing=False.  Stated, not verified here.
+# pynndescent.optimal_transport.arc_id is a function of an installed dependency.  Its contract is no longer just stated: the
+# source that /venv imports (site-packages/pynndescent/optimal_transport.py, read on every run) is verified against it below
+# ("@site/..." entry), and callers in /repo use the same clause list through "external::arc_id" (verified_by names the entry).
+# transport_plan allocates its graph with use_arc_mixing=False, which is the case the contract covers.
+_GRAPH_FULL = ("struct{n:int,m:int,n_arcs:int,use_arc_mixing:bool,num_total_big_subsequence_numbers:int,subsequence_length:int,"
+               "num_big_subsequences:int,mixing_coeff:int,n_nodes:int}")
+_ARC_REQ = ["0 <= arc and arc < graph.n_arcs", "not graph.use_arc_mixing"]
+_ARC_ENS = ["result == graph.n_arcs - arc - 1", "0 <= result and result < graph.n_arcs"]
+CONTRACTS["@site/pynndescent/optimal_transport.py::arc_id"] = dict(
+    params=dict(arc="int", graph=_GRAPH_FULL),
+    requires=_ARC_REQ,
+    returns="int",
+    ensures=_ARC_ENS,
+)
 CONTRACTS["external::arc_id"] = dict(
     param_names=["arc", "graph"], params=dict(arc="int", graph=_GRAPH),
     source="pynndescent/optimal_transport.py::arc_id",
-    requires=["0 <= arc and arc < graph.n_arcs", "not graph.use_arc_mixing"],
+    verified_by="@site/pynndescent/optimal_transport.py::arc_id",
+    requires=_ARC_REQ,
     returns="int",
-    ensures=["result == graph.n_arcs - arc - 1"],
-    trusted=True,
+    ensures=_ARC_ENS,
 )
 
 _CELL = "result[{i}, {j}] == flow[graph.n_arcs - ({i} * graph.m + {j}) - 1]"
@@ -28,6 +40,41 @@ CONTRACTS[F + "get_transport_plan"] = dict(
         "for#1": dict(invariant=["forall(0, i, lambda a: forall(0, graph.m, lambda b: " + _CELL.format(i="a", j="b") + "))"]),
         "for#2": dict(invariant=["forall(0, i, lambda a: forall(0, graph.m, lambda b: " + _CELL.format(i="a", j="b") + "))",
                                  "forall(0, j, lambda b: " + _CELL.format(i="i", j="b") + ")"]),
+    },
+)
+
+# initialize_cost (installed pynndescent source): the cost of cell (i, j) is written to slot n_arcs - (i*m + j) - 1 of the arc
+# cost vector - the very slot get_transport_plan reads cell (i, j) of the plan from.  Together the two contracts say that plan
+# cell (i, j) is the flow of the arc that carries cost[i, j] (C07: the plan returned is the plan of the problem that was posed).
+_CW = "cost[graph.n_arcs - ({i} * graph.m + {j}) - 1] == cost_matrix[{i}, {j}]"
+CONTRACTS["@site/pynndescent/optimal_transport.py::initialize_cost"] = dict(
+    params=dict(cost_matrix="real[,]", graph=_GRAPH_FULL, cost="real[]"),
+    requires=["graph.n >= 0 and graph.m >= 0", "graph.n_arcs == graph.n * graph.m", "len(cost) >= graph.n_arcs", "not graph.use_arc_mixing",
+              "cost_matrix.shape[0] == graph.n and cost_matrix.shape[1] == graph.m"],
+    modifies=["cost"],
+    returns="none",
+    ensures=["forall(0, graph.n, lambda a: forall(0, graph.m, lambda b: " + _CW.format(i="a", j="b") + "))"],
+    loops={
+        "for#1": dict(invariant=["forall(0, i, lambda a: forall(0, graph.m, lambda b: " + _CW.format(i="a", j="b") + "))"]),
+        "for#2": dict(invariant=["forall(0, i, lambda a: forall(0, graph.m, lambda b: " + _CW.format(i="a", j="b") + "))",
+                                 "forall(0, j, lambda b: " + _CW.format(i="i", j="b") + ")"]),
+    },
+)
+
+# initialize_supply (installed pynndescent source): node k < n gets the k-th left supply, node n + k the k-th right supply, both
+# at the mirrored slot n_nodes - node - 1; every read and write in range.
+CONTRACTS["@site/pynndescent/optimal_transport.py::initialize_supply"] = dict(
+    params=dict(left_node_supply="real[]", right_node_supply="real[]", graph=_GRAPH_FULL, supply="real[]"),
+    requires=["graph.n >= 0 and graph.m >= 0", "graph.n_nodes == graph.n + graph.m", "len(supply) >= graph.n_nodes",
+              "len(left_node_supply) == graph.n and len(right_node_supply) == graph.m"],
+    modifies=["supply"],
+    returns="none",
+    ensures=["forall(0, graph.n, lambda k: supply[graph.n_nodes - k - 1] == left_node_supply[k])",
+             "forall(0, graph.m, lambda k: supply[graph.n_nodes - (graph.n + k) - 1] == right_node_supply[k])",
+             "unchanged(left_node_supply) and unchanged(right_node_supply)"],
+    loops={
+        "for#1": dict(invariant=["forall(0, n, lambda k: implies(k < graph.n, supply[graph.n_nodes - k - 1] == left_node_supply[k]))",
+                                 "forall(0, graph.m, lambda k: implies(graph.n + k < n, supply[graph.n_nodes - (graph.n + k) - 1] == right_node_supply[k]))"]),
     },
 )
 
@@ -50,3 +97,35 @@ CONTRACTS[F + "project_to_sphere_tangent_space"] = dict(
     ensures=["result.shape[0] == euclidean_vectors.shape[0] and result.shape[1] == euclidean_vectors.shape[1]"],
     loops={"for#1": dict(invariant=["result.shape[0] == euclidean_vectors.shape[0] and result.shape[1] == euclidean_vectors.shape[1]"])},
 )
+
+
+def _gen_graph(rng, mixing=False):
+    from types import SimpleNamespace
+    n, m = rng.choice([0, 1, 2, 3, 5]), rng.choice([0, 1, 2, 4])
+    return SimpleNamespace(n=n, m=m, n_arcs=n * m, n_nodes=n + m, use_arc_mixing=mixing, num_total_big_subsequence_numbers=0, subsequence_length=1,
+                           num_big_subsequences=0, mixing_coeff=1)
+
+
+def _gen_arc(rng):
+    g = _gen_graph(rng)
+    return dict(arc=rng.randrange(-1, g.n_arcs + 2), graph=g)
+
+
+def _gen_cost(rng):
+    import numpy as np
+    g = _gen_graph(rng)
+    return dict(cost_matrix=np.array([[rng.random() for _ in range(g.m)] for _ in range(g.n)], dtype=np.float64).reshape(g.n, g.m), graph=g,
+                cost=np.zeros(g.n_arcs + rng.choice([0, 3]), dtype=np.float64))
+
+
+def _gen_supply(rng):
+    import numpy as np
+    g = _gen_graph(rng)
+    return dict(left_node_supply=np.array([rng.random() for _ in range(g.n)], dtype=np.float64), right_node_supply=np.array([rng.random() for _ in range(g.m)], dtype=np.float64),
+                graph=g, supply=np.zeros(g.n_nodes + rng.choice([0, 2]), dtype=np.float64))
+
+
+_S = "@site/pynndescent/optimal_transport.py::"
+CONTRACTS[_S + "arc_id"]["gen_all"] = _gen_arc
+CONTRACTS[_S + "initialize_cost"]["gen_all"] = _gen_cost
+CONTRACTS[_S + "initialize_supply"]["gen_all"] = _gen_supply
